@@ -130,7 +130,8 @@ def ch_opt_errors(ctx) -> Channel:
             todo.append((name, kind, arg, real, True))
         else:
             real = O.real_outcome(opt, arg)
-            modelled = O.is_ascii(arg)
+            # CPython refuses int() of more than 4300 digits (ValueError): not in the model
+            modelled = O.is_ascii(arg) and not O.LONG_DIGITS.search(arg)
             if modelled:
                 lines.append(f"c16opt {kind} S{arg.encode().hex() or ''}" if arg else f"c16opt {kind} S")
             todo.append((name, kind, arg, real, modelled))
